@@ -194,7 +194,15 @@ class Ledger:
         if not self.obs:
             print(f"[{self.prop}] internal error: zero obligations generated", file=sys.stderr)
             return 3
-        return 1 if violations else 0
+        if violations:
+            return 1
+        undec_P = [o for o in undec if o.tier == "P"]
+        if undec_P:
+            # neither held nor violated: an obligation of a proof-level claim was left open (exit 2, no VIOLATION line)
+            for o in undec_P[:20]:
+                print(f"UNDECIDED property={self.prop} obligation={o.name!r} backend={o.backend}", file=sys.stderr)
+            return 2
+        return 0
 
 
 def _match(f, o):
